@@ -165,7 +165,11 @@ func zzC07ArbitraryPeer() {
 	}
 	c := NewClient(&Implementation{Name: "c", Version: "v"}, nil)
 	c.sendingMethodHandler_ = zzC07Router
-	cs, err := c.Connect(context.Background(), &InMemoryTransport{}, &ClientSessionOptions{ProtocolVersion: requested})
+	copts := &ClientSessionOptions{ProtocolVersion: requested}
+	cs, err := c.Connect(context.Background(), &InMemoryTransport{}, copts)
+	// the options are the caller's: they are read, never written (a caller re-using one value for its next Connect —
+	// a reconnect, another endpoint — asks for what it wrote there, not for what the last negotiation ended with)
+	vAssert(copts.ProtocolVersion == requested, "C07.connect-leaves-the-callers-options-alone")
 	vAssert(env.discovers <= 2, "C07.at-most-two-discover-attempts")
 	modernRequested := requested == "" || requested >= protocolVersion20260728
 	if modernRequested && (env.discoverOutcome != 0 || !listsModern) {
